@@ -106,8 +106,15 @@ def run_update(w, node, sm, mode, fresh, order_rng, failing):
 
     def emit_ans(sname, kind):
         row, bad = row_of(sm, sname)
+        # the checkstring remembered for a bad share is what a later test-and-set compares the stored share with
+        badcs = []
+        for (server, shnum), cs in sm.get_bad_shares().items():
+            if server.get_nickname() == sname:
+                raw = w.raw(sname, shnum)
+                if raw is not None and not (isinstance(cs, bytes) and len(cs) >= 41 and raw.startswith(cs)):
+                    badcs.append(shnum)
         ev.append({"ev": "Ans", "s": sname, "kind": kind, "row": {str(sh): vid(w, v) for sh, v in row.items()},
-                   "bad": bad, "priv": node.get_privkey() is not None})
+                   "bad": bad, "badcs": sorted(badcs), "priv": node.get_privkey() is not None})
 
     d = u.update()
     d.addBoth(out.append)
@@ -290,12 +297,14 @@ def scenario(g, rng, idx, k, n, thorough):
     if rng.random() < 0.4:
         # a competitor: a writer that only saw version 1 publishes another version with the same seqnum as version 2
         w.wipe()
-        md.base_layout(w, 1, rng)
+        for sh in range(n):
+            w.put(w.order[sh % len(w.order)], sh, 1, how="for_competitor")
         c = w.new_content(ln, ln)
         st, r = w.run(w.fresh_node("rw").overwrite(MutableData(c)))
-        assert st == "ok", r
-        comp = w.register_published(c)
-        assert w.vers[comp - 1]["seq"] == w.vers[newest - 1]["seq"]
+        if st == "ok":
+            comp = w.register_published(c)
+            assert w.vers[comp - 1]["seq"] == w.vers[newest - 1]["seq"]
+        w.wipe()
     crafted = []
     if rng.random() < 0.4:
         crafted.append(w.forge_resigned(rng.choice([1, 2]), w.vers[newest - 1]["seq"] + rng.choice([1, 2]), rng.random() < 0.5))
